@@ -31,6 +31,8 @@ def run(ctx, rep):
                       set(prim["classes"]), set(prim["free_functions"]),
                       control_names=("prim_bad", "prim_ok"))
     rep.floor("window dereference sites in primitive readers", n, prim["floor_all"])
+    from .C01 import wiresig
+    wiresig(ctx, rep, ids=("rabs", "direct", "bit_region", "rans_end", "kd_points"))
     for note in (prim.get("_note_dead_readers"),):
         if note:
             rep.note(note)
